@@ -1,7 +1,7 @@
 (** C12 — Documented value ranges and ordering invariants hold on every valid stream (exact arithmetic). *)
 From Yata Require Import Base.Prelude Base.Num Base.NumR Core.Window Core.Candle Core.Action Core.Strings
   Spec.Hist Spec.MethodDefs Spec.IndicatorDefs Methods.Basic Methods.Select Indicators.Common Indicators.Set1 Indicators.Set2 Indicators.Set3 Proofs.Ranges Proofs.Averages
-  Proofs.IndicatorProofs2 Proofs.IndicatorProofs3 Proofs.IndicatorProofs6 Proofs.IndicatorProofs4 Indicators.Set5 Proofs.IndicatorProofs15 Proofs.TsxRange.
+  Proofs.IndicatorProofs2 Proofs.IndicatorProofs3 Proofs.IndicatorProofs6 Proofs.IndicatorProofs4 Indicators.Set5 Proofs.IndicatorProofs15 Proofs.TsxRange Proofs.MAProofs Proofs.IndicatorProofs5 Proofs.IndicatorProofs11 Proofs.RangeMA Proofs.Windowed Proofs.Windowed3 Proofs.Windowed4.
 From Coq Require Import Reals Lra Lia.
 Open Scope R_scope.
 
@@ -56,6 +56,77 @@ Proof. exact (ema_range al x0 lo hi rh). Qed.
 
 (** ---- end to end: the MODEL of the code (not only the formula) stays inside the documented range after every stream,
     in exact arithmetic: composition of the value theorems of C05 with the range theorems above *)
+(** "averaging kinds that cannot overshoot": SMA, WMA, EMA, DMA, TMA, RMA, WSMA (non-negative weights) keep any interval that
+    contains the construction value and the inputs; RSI and both Stochastic lines configured with them stay in [0, 1] - the
+    formulas for every history, and the MODEL of the code after every stream *)
+Theorem C12_ma_no_overshoot (c : ma_cfg) (x0 lo hi : R) rh : ma_no_overshoot c = true -> (1 <= ma_period c)%Z ->
+  lo <= x0 <= hi -> (forall x, In x rh -> lo <= x <= hi) -> lo <= ma_def c x0 rh <= hi.
+Proof. exact (ma_def_range c x0 lo hi rh). Qed.
+Theorem C12_rsi_range (ma : ma_cfg) src (c0 : C) rcs : ma_no_overshoot ma = true -> (1 <= ma_period ma)%Z ->
+  Forall (fun v => 0 <= v <= 1) (rsi_values ma src c0 rcs).
+Proof. exact (rsi_values_range ma src c0 rcs). Qed.
+Theorem C12_stochastic_range n (ma signal : ma_cfg) (c0 : C) rcs : (1 <= n)%Z ->
+  ma_no_overshoot ma = true -> (1 <= ma_period ma)%Z -> ma_no_overshoot signal = true -> (1 <= ma_period signal)%Z ->
+  candle_ordered c0 -> Forall candle_ordered rcs -> Forall (fun v => 0 <= v <= 1) (sto_values n ma signal c0 rcs).
+Proof. exact (sto_values_range n ma signal c0 rcs). Qed.
+Theorem C12_rsi_model_range (cfg : rsi_cfg (N := NumR)) (c0 : C) cs c : rsi_validate cfg = true ->
+  ma_no_overshoot (rc_ma cfg) = true -> ma_len_ok (rc_ma cfg) ->
+  exists s0, rsi_init cfg c0 = Ok s0 /\ Forall (fun v => 0 <= v <= 1) (fst (snd (rsi_next (steps rsi_next s0 cs) c))).
+Proof.
+  intros Hv Hk Hl. destruct (rsi_values_correct cfg c0 cs c Hv (ma_proved_all _) Hl) as (s0 & E & H). exists s0. split; [exact E|].
+  rewrite H. apply rsi_values_range; [exact Hk|]. unfold rsi_validate in Hv. apply andb_prop in Hv. destruct Hv as (Hv & _). apply andb_prop in Hv.
+  destruct Hv as (Hv & _). apply Z.ltb_lt in Hv. lia.
+Qed.
+Theorem C12_stochastic_model_range (cfg : sto_cfg (N := NumR)) (c0 : C) cs c : sto_validate cfg = true -> (sc_period cfg <= pmax - 1)%Z ->
+  ma_no_overshoot (sc_ma cfg) = true -> ma_len_ok (sc_ma cfg) -> ma_no_overshoot (sc_signal cfg) = true -> ma_len_ok (sc_signal cfg) ->
+  (1 <= ma_period (sc_ma cfg))%Z -> (1 <= ma_period (sc_signal cfg))%Z ->
+  candle_ordered c0 -> Forall candle_ordered (cs ++ [c]) ->
+  exists s0, sto_init cfg c0 = Ok s0 /\ Forall (fun v => 0 <= v <= 1) (fst (snd (sto_next (steps sto_next s0 cs) c))).
+Proof.
+  intros Hv Hm K1 L1 K2 L2 N1 N2 H0 Hall.
+  destruct (stochastic_values_correct cfg c0 cs c Hv Hm (ma_proved_all _) L1 (ma_proved_all _) L2) as (s0 & E & H). exists s0. split; [exact E|].
+  rewrite H. apply sto_values_range; try assumption.
+  - unfold sto_validate in Hv. apply andb_prop in Hv. destruct Hv as (Hv & _). apply andb_prop in Hv. destruct Hv as (Hv & _). apply Z.ltb_lt in Hv. lia.
+  - apply Forall_rev. exact Hall.
+Qed.
+(** Keltner channel and Envelopes: upper >= average >= lower (formula, then the MODEL of the code after every stream) *)
+Theorem C12_keltner_order (ma : ma_cfg) (sigma : R) src (c0 : C) rcs : (1 <= ma_period ma)%Z -> 0 <= sigma ->
+  candle_hl c0 -> Forall candle_hl rcs ->
+  match kelt_values ma sigma src c0 rcs with [_; up; lo] => lo <= ma_def ma (c_source c0 src) (srcs src rcs) <= up | _ => False end.
+Proof. exact (kelt_values_order ma sigma src c0 rcs). Qed.
+Theorem C12_envelopes_order (ma : ma_cfg) (k : R) src src2 (c0 : C) rcs : ma_no_overshoot ma = true -> (1 <= ma_period ma)%Z -> 0 <= k ->
+  0 <= c_source c0 src -> (forall c, In c rcs -> 0 <= c_source c src) ->
+  match env_values ma k src src2 c0 rcs with [up; lo; _] => lo <= ma_def ma (c_source c0 src) (srcs src rcs) <= up | _ => False end.
+Proof. exact (env_values_order ma k src src2 c0 rcs). Qed.
+Theorem C12_keltner_model_order (ma : ma_cfg) (sigma : R) src (c0 : C) cs c :
+  (1 < ma_period ma <= pmax - 1)%Z -> 0 < sigma -> ma_len_ok ma -> candle_hl c0 -> Forall candle_hl (cs ++ [c]) ->
+  exists s0, kelt_init ma sigma src c0 = Ok s0 /\
+    match fst (snd (kelt_next (steps kelt_next s0 cs) c)) with [_; up; lo] => lo <= up | _ => False end.
+Proof.
+  intros Hp Hs Hl H0 Hall. destruct (keltner_values_correct ma sigma src c0 cs c Hp Hs (ma_proved_all _) Hl) as (s0 & E & H).
+  exists s0. split; [exact E|]. rewrite H.
+  pose proof (kelt_values_order ma sigma src c0 (rev (cs ++ [c])) ltac:(lia) ltac:(lra) H0 (Forall_rev Hall)) as O.
+  unfold kelt_values in *. cbv zeta in *. lra.
+Qed.
+(** SMI ergodic (TSI-based): the TSI line and its signal line stay in [-1, 1] - formula and MODEL *)
+Theorem C12_smi_ergodic_model_range p1 p2 (signal : ma_cfg) (zone : R) src (c0 : C) cs c :
+  (1 < p2 <= p1)%Z -> (p1 < pmax)%Z -> (1 < ma_period signal < pmax)%Z -> 0 <= zone <= 1 -> ma_len_ok signal -> ma_no_overshoot signal = true ->
+  exists s0, smi_init p1 p2 signal zone src c0 = Ok s0 /\
+    match fst (snd (smi_next (steps smi_next s0 cs) c)) with [t; sg; _] => -1 <= t <= 1 /\ -1 <= sg <= 1 | _ => False end.
+Proof.
+  intros H1 H2 H3 Hz Hl Hk. destruct (smi_values_correct p1 p2 signal zone src c0 cs c H1 H2 H3 Hz Hl) as (s0 & E & H).
+  exists s0. split; [exact E|]. rewrite H. cbv zeta. apply smi_lines_range; try assumption; lia.
+Qed.
+(** dispersion measures of the MODEL are never negative, after every stream (exact arithmetic) *)
+Theorem C12_stdev_model_nonneg n (v : R) xs x : (2 <= n <= pmax - 1)%Z ->
+  exists s0, stdev_new n v = Ok s0 /\ 0 <= snd (stdev_next (steps stdev_next s0 xs) x).
+Proof. intros Hn. destruct (stdev_correct n v xs x Hn) as (s0 & E & H). exists s0. split; [exact E|]. rewrite H. apply stdev_nonneg. Qed.
+Theorem C12_mean_abs_dev_model_nonneg n (v : R) xs x : (1 <= n <= pmax - 1)%Z ->
+  exists s0, mad_new n v = Ok s0 /\ 0 <= snd (mad_next (steps mad_next s0 xs) x).
+Proof. intros Hn. destruct (mad_correct n v xs x Hn) as (s0 & E & H). exists s0. split; [exact E|]. rewrite H. apply mad_nonneg. lia. Qed.
+Theorem C12_linear_volatility_model_nonneg n (v : R) xs x : (1 <= n <= pmax - 1)%Z ->
+  exists s0, linvol_new n v = Ok s0 /\ 0 <= snd (linvol_next (steps linvol_next s0 xs) x).
+Proof. intros Hn. destruct (linvol_correct n v xs x Hn) as (s0 & E & H). exists s0. split; [exact E|]. rewrite H. apply linvol_nonneg. Qed.
 Theorem C12_cmo_model_range period zone src (c0 : C) cs c : cmo_validate period zone = true ->
   exists s0, cmo_init period zone src c0 = Ok s0 /\
     Forall (fun v => -1 <= v <= 1) (fst (snd (cmo_next (steps cmo_next s0 cs) c))).
